@@ -251,7 +251,7 @@ Qed.
 
 Lemma bind_memory_alloc v slot image res off : get_alloc (fst (bind_memory v slot image res off)) slot = get_alloc v slot.
 Proof using.
-  unfold bind_memory. destruct (res =? 0); [reflexivity|]. destruct (negb _); [reflexivity|].
+  unfold bind_memory. destruct (res =? 0); [reflexivity|]. destruct (negb _); [reflexivity|]. destruct (off <? 0); [reflexivity|].
   destruct (if a_kind (get_alloc v slot) =? 2 then _ else _) as [o|code| |]; try reflexivity.
   destruct (dev_bind _ _ _ _ _) as (m1 & code). reflexivity.
 Qed.
